@@ -8,6 +8,8 @@
 
 #include <mpi.h>
 
+#include <optional>
+
 using namespace vf;
 using namespace vf::rt;
 namespace mpi = pika::mpi::experimental;
@@ -33,6 +35,9 @@ struct Prog
     // requests pile up between two drains of the polling queues (their capacity limits become reachable)
     bool burst = false;
     int posters = 1;
+    // with a dedicated MPI pool and two polling scopes: the second scope polls on the default pool instead (enable_polling(.., "default")):
+    // polling is switched off and on again in a balanced way, with a different pool configuration
+    bool second_scope_on_default_pool = false;
 };
 struct Case
 {
@@ -73,8 +78,8 @@ static Case decode(tape_t const& tape)
             p.pairs.clear();
             for (int j = 0; j < k2; ++j) p.pairs.push_back(Pair{1, true});
             p.posters = 1 + static_cast<int>(t.below(static_cast<std::uint32_t>(p.workers)));
-            p.scopes = 1;
         }
+        p.second_scope_on_default_pool = p.pool && p.scopes == 2 && t.chance(1, 2);
         c.progs.push_back(std::move(p));
     }
     return c;
@@ -98,7 +103,7 @@ static std::string describe(tape_t const& tape)
         for (auto const& pr : p.pairs) big = std::max(big, sizes[pr.size_idx]);
         os << (i ? ", " : "") << "{\"mode\": " << p.mode << ", \"method\": \"" << method_name(p.mode) << "\", \"workers\": " << p.workers << ", \"mpi_pool\": " << (p.pool ? "true" : "false")
            << ", \"polling_size\": " << p.polling_size << ", \"pairs\": " << p.pairs.size() << ", \"largest_message\": " << big << ", \"send_stride\": " << p.send_stride
-           << ", \"polling_scopes\": " << p.scopes << ", \"wait_in_flight\": " << (p.wait_in_flight ? "true" : "false") << ", \"burst_posters\": " << (p.burst ? p.posters : 0) << "}";
+           << ", \"polling_scopes\": " << p.scopes << ", \"wait_in_flight\": " << (p.wait_in_flight ? "true" : "false") << ", \"burst_posters\": " << (p.burst ? p.posters : 0) << ", \"second_scope_polls_on_default_pool\": " << (p.second_scope_on_default_pool ? "true" : "false") << "}";
     }
     os << "]}";
     return os.str();
@@ -174,7 +179,8 @@ static std::string run_program(Prog const& p, int index, Quiescence& q)
     {
         std::size_t lo = static_cast<std::size_t>(sc) * per_scope, hi = std::min(n, lo + per_scope);
         if (lo >= hi) break;
-        mpi::enable_polling ep;
+        std::optional<mpi::enable_polling> ep;
+        if (sc == 1 && p.second_scope_on_default_pool) ep.emplace(mpi::no_handler, "default"); else ep.emplace();
         auto post_recv = [&](std::size_t i) {
             PairRt* r = prs[i].get();
             int cnt = static_cast<int>(r->rbuf.size());
